@@ -52,6 +52,15 @@ SelectSpec.vos SelectSpec.vok SelectSpec.required_vos: SelectSpec.v Graph.vos Gr
 Terms.vo Terms.glob Terms.v.beautified Terms.required_vo: Terms.v Graph.vo Sched.vo Dataflow.vo
 Terms.vio: Terms.v Graph.vio Sched.vio Dataflow.vio
 Terms.vos Terms.vok Terms.required_vos: Terms.v Graph.vos Sched.vos Dataflow.vos
+History.vo History.glob History.v.beautified History.required_vo: History.v Graph.vo Select.vo
+History.vio: History.v Graph.vio Select.vio
+History.vos History.vok History.required_vos: History.v Graph.vos Select.vos
+HistoryFacts.vo HistoryFacts.glob HistoryFacts.v.beautified HistoryFacts.required_vo: HistoryFacts.v Graph.vo GraphFacts.vo Select.vo SelectFacts.vo History.vo
+HistoryFacts.vio: HistoryFacts.v Graph.vio GraphFacts.vio Select.vio SelectFacts.vio History.vio
+HistoryFacts.vos HistoryFacts.vok HistoryFacts.required_vos: HistoryFacts.v Graph.vos GraphFacts.vos Select.vos SelectFacts.vos History.vos
+DenPre.vo DenPre.glob DenPre.v.beautified DenPre.required_vo: DenPre.v Graph.vo GraphFacts.vo Sched.vo SchedInv.vo Dataflow.vo DataflowFacts.vo
+DenPre.vio: DenPre.v Graph.vio GraphFacts.vio Sched.vio SchedInv.vio Dataflow.vio DataflowFacts.vio
+DenPre.vos DenPre.vok DenPre.required_vos: DenPre.v Graph.vos GraphFacts.vos Sched.vos SchedInv.vos Dataflow.vos DataflowFacts.vos
 Properties/C01.vo Properties/C01.glob Properties/C01.v.beautified Properties/C01.required_vo: Properties/C01.v Graph.vo Sched.vo SchedInv.vo Dataflow.vo DataflowFacts.vo
 Properties/C01.vio: Properties/C01.v Graph.vio Sched.vio SchedInv.vio Dataflow.vio DataflowFacts.vio
 Properties/C01.vos Properties/C01.vok Properties/C01.required_vos: Properties/C01.v Graph.vos Sched.vos SchedInv.vos Dataflow.vos DataflowFacts.vos
@@ -82,6 +91,9 @@ Properties/C09.vos Properties/C09.vok Properties/C09.required_vos: Properties/C0
 Properties/C10.vo Properties/C10.glob Properties/C10.v.beautified Properties/C10.required_vo: Properties/C10.v Graph.vo Sched.vo SchedInv.vo SchedGhost.vo Dataflow.vo DataflowFacts.vo
 Properties/C10.vio: Properties/C10.v Graph.vio Sched.vio SchedInv.vio SchedGhost.vio Dataflow.vio DataflowFacts.vio
 Properties/C10.vos Properties/C10.vok Properties/C10.required_vos: Properties/C10.v Graph.vos Sched.vos SchedInv.vos SchedGhost.vos Dataflow.vos DataflowFacts.vos
+Properties/C11.vo Properties/C11.glob Properties/C11.v.beautified Properties/C11.required_vo: Properties/C11.v Graph.vo Select.vo SelectFacts.vo History.vo HistoryFacts.vo
+Properties/C11.vio: Properties/C11.v Graph.vio Select.vio SelectFacts.vio History.vio HistoryFacts.vio
+Properties/C11.vos Properties/C11.vok Properties/C11.required_vos: Properties/C11.v Graph.vos Select.vos SelectFacts.vos History.vos HistoryFacts.vos
 Properties/C12.vo Properties/C12.glob Properties/C12.v.beautified Properties/C12.required_vo: Properties/C12.v Graph.vo Closure.vo Select.vo SelectFacts.vo SelectSpec.vo
 Properties/C12.vio: Properties/C12.v Graph.vio Closure.vio Select.vio SelectFacts.vio SelectSpec.vio
 Properties/C12.vos Properties/C12.vok Properties/C12.required_vos: Properties/C12.v Graph.vos Closure.vos Select.vos SelectFacts.vos SelectSpec.vos
@@ -91,3 +103,9 @@ Properties/C13.vos Properties/C13.vok Properties/C13.required_vos: Properties/C1
 Properties/C14.vo Properties/C14.glob Properties/C14.v.beautified Properties/C14.required_vo: Properties/C14.v Graph.vo Sched.vo SchedInv.vo SchedGhost.vo
 Properties/C14.vio: Properties/C14.v Graph.vio Sched.vio SchedInv.vio SchedGhost.vio
 Properties/C14.vos Properties/C14.vok Properties/C14.required_vos: Properties/C14.v Graph.vos Sched.vos SchedInv.vos SchedGhost.vos
+Properties/C15.vo Properties/C15.glob Properties/C15.v.beautified Properties/C15.required_vo: Properties/C15.v Graph.vo Sched.vo SchedInv.vo Dataflow.vo DataflowFacts.vo DenPre.vo
+Properties/C15.vio: Properties/C15.v Graph.vio Sched.vio SchedInv.vio Dataflow.vio DataflowFacts.vio DenPre.vio
+Properties/C15.vos Properties/C15.vok Properties/C15.required_vos: Properties/C15.v Graph.vos Sched.vos SchedInv.vos Dataflow.vos DataflowFacts.vos DenPre.vos
+Properties/C18.vo Properties/C18.glob Properties/C18.v.beautified Properties/C18.required_vo: Properties/C18.v Graph.vo Select.vo SelectFacts.vo History.vo HistoryFacts.vo
+Properties/C18.vio: Properties/C18.v Graph.vio Select.vio SelectFacts.vio History.vio HistoryFacts.vio
+Properties/C18.vos Properties/C18.vok Properties/C18.required_vos: Properties/C18.v Graph.vos Select.vos SelectFacts.vos History.vos HistoryFacts.vos
